@@ -293,10 +293,12 @@ class Timeout(Exception):
 
 
 def call_with_timeout(fn, seconds: float, *a, **kw):
-    """Run fn in this process under SIGALRM (main thread only).  A watchdog shorter than two seconds that fires is tried once
-    more with ten times the budget: ITIMER_REAL counts wall-clock time, so a busy machine or a collector pause must not
-    be reported as "does not return" (a call that really loops still times out)."""
+    """Run fn in this process under SIGALRM (main thread only).  ITIMER_REAL counts wall-clock time, so on a busy machine a
+    short watchdog can fire although the call was merely not scheduled: when the watchdog fires and the process used less
+    than half of the budget as CPU time, the call is tried once more with ten times the budget.  A call that really loops
+    burns the whole budget as CPU time and is reported at once."""
     import signal
+    import time as _time
 
     def handler(signum, frame):
         raise Timeout()
@@ -304,11 +306,13 @@ def call_with_timeout(fn, seconds: float, *a, **kw):
     budgets = [seconds, seconds * 10] if seconds < 2.0 else [seconds]
     for i, budget in enumerate(budgets):
         old = signal.signal(signal.SIGALRM, handler)
+        cpu0 = _time.process_time()
         signal.setitimer(signal.ITIMER_REAL, budget)
         try:
             return fn(*a, **kw)
         except Timeout:
-            if i == len(budgets) - 1:
+            starved = (_time.process_time() - cpu0) < 0.5 * budget
+            if i == len(budgets) - 1 or not starved:
                 raise
         finally:
             signal.setitimer(signal.ITIMER_REAL, 0)
